@@ -55,6 +55,15 @@ def constructor_state(ck, rule):
         repl = [i for i, (k, o) in enumerate(pf.order) if k == "store" and o.path in ("self.config", "self.__dict__") and o.depth == 0]
         first_use = [i for i, (k, o) in enumerate(pf.order) if k == "call" and isinstance(o.raw.func, ast.Attribute) and o.raw.func.attr in ("set_val", "resize", "_init_size")
                      and dotted(o.raw.func.value) == "self"]
+        if repl:
+            sc = [i for i, (k, o) in enumerate(pf.order) if k == "store" and o.path == "self.scaled" and o.depth == 0 and i > repl[-1]
+                  and not (isinstance(o.value, ast.Constant) and o.value.value is None)]
+            if not sc or (first_use and sc[-1] > first_use[0]):
+                if "scaled" not in seen_bad:
+                    seen_bad.add("scaled")
+                    ck.bad(rule, f, "the scaled indicator is recomputed from the object's scale and bias after the like=/template state is installed (before sizing)",
+                           "path with a state copy but no later store to self.scaled", f.node,
+                           "the new object inherits a stale indicator: its limits (and the read map) are computed as if it were unscaled")
         if not upd:
             key = "none"
             if key not in seen_bad:
@@ -268,3 +277,50 @@ def no_class_state_writes(ck, rule):
                             ck.bad(rule, f, "no function writes class-level state", "%s = ..." % src(tt)[:50], node,
                                    "a later, unrelated constructor call starts from the value written here (e.g. every new object copies a leftover template)")
     ck.ok(rule, "fxpmath package", "%d attribute stores examined: none targets a class object" % n, nontrivial=False)
+
+
+def no_hidden_state(ck, rule):
+    """C20.R8: results depend on the documented state only.  (a) objects carry exactly the attributes of the pinned classes: a store to any other
+    self.<name> (or setattr with another literal name) introduces hidden state - a cache, a memo, a remembered limit - that the code which
+    changes sizes, values or modes does not know it must invalidate; (b) no function writes a module-level container or rebinds a module
+    global (the numpy registry filled by @implements is the one exception)."""
+    prog = ck.prog
+    from ..pinned import PINNED_INSTANCE_ATTRS, PINNED_GLOBALS
+    n = 0
+    for f in prog.all_funcs():
+        if f.cls in PINNED_INSTANCE_ATTRS and f.parent is None:
+            allowed = PINNED_INSTANCE_ATTRS[f.cls]
+            for node in ast.walk(f.node):
+                if isinstance(node, ast.Attribute) and isinstance(node.ctx, (ast.Store,)) and dotted(node.value) == "self":
+                    n += 1
+                    if node.attr not in allowed:
+                        ck.bad(rule, f, "%s objects carry only the documented attributes (no cached / memoised state)" % f.cls, "self.%s = ..." % node.attr, node,
+                               "a remembered value goes stale when sizes, signedness, modes or the buffer change through a route that does not reset it")
+                elif isinstance(node, ast.Call) and dotted(node.func) == "setattr" and len(node.args) >= 2 and dotted(node.args[0]) == "self" and isinstance(node.args[1], ast.Constant) \
+                        and node.args[1].value not in allowed:
+                    ck.bad(rule, f, "%s objects carry only the documented attributes (no cached / memoised state)" % f.cls, "setattr(self, %r, ...)" % node.args[1].value, node)
+    for m, assigns in prog.module_assigns.items():
+        mod_names = set(assigns)
+        for f in prog.all_funcs():
+            if f.module != m:
+                continue
+            local = set(f.params)
+            for node in ast.walk(f.node):
+                if isinstance(node, ast.Name) and isinstance(node.ctx, ast.Store):
+                    local.add(node.id)
+            for node in ast.walk(f.node):
+                if isinstance(node, ast.Global):
+                    ck.bad(rule, f, "no function rebinds a module-level name", "global %s" % ", ".join(node.names), node, "state shared by all objects and calls")
+                base = None
+                if isinstance(node, ast.Subscript) and isinstance(node.ctx, (ast.Store, ast.Del)) and isinstance(node.value, ast.Name):
+                    base = node.value.id
+                elif isinstance(node, ast.Call) and isinstance(node.func, ast.Attribute) and isinstance(node.func.value, ast.Name) \
+                        and node.func.attr in ("append", "extend", "update", "setdefault", "pop", "clear", "add", "insert", "remove", "popitem"):
+                    base = node.func.value.id
+                if base is not None and base in mod_names and base not in local:
+                    n += 1
+                    if base == "_NUMPY_HANDLED_FUNCTIONS" and f.name in ("implements", "decorator"):
+                        continue
+                    ck.bad(rule, f, "no function writes into a module-level container", "%s written in %s" % (base, f.qualname), node,
+                           "a memo keyed by part of the inputs returns what an earlier, different call computed")
+    ck.ok(rule, "fxpmath package", "%d attribute / container stores examined: only documented instance attributes, no module-level state" % n, nontrivial=False)
